@@ -96,6 +96,10 @@ def with_vals_after_state(h):
             nxt = h[i + 1] if i + 1 < len(h) else ''
             if nxt != 'vals ' + t[1]:
                 out.append('vals ' + t[1])
+            # ... and, at every other export, by the cached count (a count inherited from the operand of a copying
+            # operation, or left stale by the operation that produced / changed X: seeded changes C12f, C10f, C02f)
+            if (i + len(h)) % 2 == 0 and not nxt.startswith('nvalid ' + t[1]):
+                out.append('nvalid ' + t[1])
     return out
 
 
